@@ -12,6 +12,7 @@ from fractions import Fraction as Fr
 
 from common.framework import PropertyCheck
 import c19_fam as fam
+import c19_alias as alias
 from c19_fam import F, fs, close
 
 EPS64 = 2.220446049250313e-16
@@ -234,6 +235,11 @@ def _g_ninf(rng):
     if rng.random() < 0.5:
         return list(rng.choice(G_NINF))
     return _ninf_row(rng, _logits(rng, rng.choice([2, 3, 3, 4])))
+
+
+def fam_short(x, n=160):
+    t = str(x)
+    return t if len(t) <= n else t[:n] + "..."
 
 
 def model_probs(check, case):
@@ -593,6 +599,139 @@ class C19(PropertyCheck):
                        "vs": [[fs(draw()) for _ in range(V)] for _ in range(N)], "f": _table(rng, V),
                        "cvkind": rng.choice(["smooth", "smooth", "rebar"]),
                        "cv": [fs(_dy(rng, -2, 2, 4)), fs(_dy(rng, -2, 2, 4)), fs(_dy(rng, 1, 3, 4))]}
+        # ---- callbacks as the user may WRITE them (fourth round).  An integrand / control variate is its
+        # table of values, but as torch code it also decides which tensor carries them: a fresh one, the
+        # argument itself (f(b) = b), a view of the argument (select, narrow, squeeze, transpose, expand, a
+        # no-op cast / contiguous / reshape, as_strided, detach) or a copy modified in place.  Every
+        # estimator is run with every kind, next to the SAME function returning a fresh tensor (bit-equal
+        # results required) and against the model / exact expectation of the function's table.  "The
+        # argument itself" needs samples without an event axis: Bernoulli families are also run in BATCH
+        # layout (plain Bernoulli(theta), batch shape (n,): the estimate is a vector of n independent
+        # one-variable estimates, each compared with the model of its variable) - with spellings and with
+        # ordinary tables.
+        sq = alias.Spellings(rng)
+        FLOAT_FAMS = ["bern1", "bern2", "bern3", "onehot3", "onehot2"]
+
+        def spelled(sp, layout, copies=True):
+            if layout == "batch":
+                return sq.next(None, copies=copies)
+            n = fam.n_coords(sp)
+            return sq.next(rng.randrange(n), n, copies=copies)
+
+        def btables(sp):
+            return [_table(rng, 2) for _ in sp["theta"]]
+
+        def same_shape(which, sp):
+            sd = _family(rng, which)
+            while fam.n_points(sd) != fam.n_points(sp) or sd["fam"] != sp["fam"]:
+                sd = _family(rng, which)
+            return sd
+        for _ in range(1 if not big else 6):
+            for which in FLOAT_FAMS:
+                for layout in (("event", "batch") if which.startswith("bern") else ("event",)):
+                    for N in (1, 2):
+                        sp = _family(rng, which, edge=rng.random() < 0.15)
+                        cvmode = rng.choice(["none", "cv", "cv_detached"])
+                        case = {"kind": "direct", "dist": sp, "layout": layout, "N": N, "fp": spelled(sp, layout),
+                                "f": None, "c": None, "cv_mean_detached": cvmode == "cv_detached"}
+                        if cvmode != "none":
+                            if rng.random() < 0.6:
+                                case["cp"] = spelled(sp, layout)
+                            else:
+                                case["c"] = btables(sp) if layout == "batch" else _table(rng, fam.n_points(sp))
+                        yield case
+                        sp = _family(rng, which)
+                        yield {"kind": "is", "proposal": sp, "layout": layout, "N": N, "fp": spelled(sp, layout),
+                               "density": rng.choice(["same", same_shape(which, sp)]), "f": None}
+                        if layout == "batch":       # the layout with ordinary tables
+                            sp = _family(rng, which)
+                            cvmode = rng.choice(["none", "cv", "cv_detached"])
+                            yield {"kind": "direct", "dist": sp, "layout": layout, "N": N, "f": btables(sp),
+                                   "c": None if cvmode == "none" else btables(sp),
+                                   "cv_mean_detached": cvmode == "cv_detached"}
+                            yield {"kind": "is", "proposal": sp, "layout": layout, "N": N, "f": btables(sp),
+                                   "density": rng.choice(["same", same_shape(which, sp)])}
+                sp = _family(rng, which)
+                yield {"kind": "enumerate", "dist": sp, "f": None,
+                       "fp": spelled(sp, "batch" if which.startswith("bern") else "event")}
+                if which in ("bern2", "bern3"):
+                    yield {"kind": "enumerate", "dist": sp, "f": btables(sp)}
+        # IMH: mc_samples - burn_in in {1, 2, 3} (the recorded values f(b_t) of EARLIER kept states must
+        # survive the later steps), drawn and supplied starting points (both documented shapes)
+        for i in range(72 if not big else 720):
+            which = rng.choice(FLOAT_FAMS)
+            layout = rng.choice(["event", "batch"]) if which.startswith("bern") else "event"
+            sp = _family(rng, which, edge=rng.random() < 0.15)
+            M = fam.n_points(sp)
+            kept = 1 + i % 3
+            burn = rng.choice([0, 0, 1, 2])
+            N = kept + burn
+            case = {"kind": "imh", "proposal": sp, "layout": layout, "N": N, "burn_in": burn,
+                    "density": "same" if rng.random() < 0.7 else same_shape(which, sp),
+                    "init": rng.choice([None, rng.randrange(M)]), "init_lead": rng.random() < 0.5,
+                    "draws": [rng.randrange(M) for _ in range(N + 1)], "f": None}
+            if layout == "batch":
+                case["us"] = [[fs(rng.choice(us)) for _ in sp["theta"]] for _ in range(N)]
+            else:
+                case["us"] = [fs(rng.choice(us)) for _ in range(N)]
+            if i % 6 == 5:
+                case["f"] = btables(sp) if layout == "batch" else _table(rng, M)
+            else:
+                case["fp"] = spelled(sp, layout)
+            yield case
+        # relaxation-based estimators: integrand of the thresholded sample and control variate of the
+        # relaxed sample in the same spellings (cv(z) = z, f(b) = b, ...)
+        for i in range(8 if not big else 60):
+            par = rng.choice(["probs", "logits"])
+            yield {"kind": "st_value", "param": par, "f": _table(rng, 4), "fp": sq.next(None),
+                   "ks": [rng.randint(1, 15) if par == "logits" else rng.randint(0, 16)
+                          for _ in range(rng.choice([1, 2]))]}
+        for i in range(12 if not big else 90):
+            par = "logits" if i % 2 == 0 else "probs"
+            shape = rng.choice([[], [1], [2], [3], [2, 2]])
+            n = prod(shape)
+            kpool = list(range(1, 16))
+            if n > 2:
+                kpool = [k for k in kpool if k % 4 == 0]
+            case = {"kind": "relax_value", "param": par, "shape": shape, "ks": [rng.choice(kpool) for _ in range(n)],
+                    "f": [_table(rng, 2) for _ in range(n)], "cvkind": rng.choice(["smooth", "rebar"]),
+                    "cv": [fs(_dy(rng, -2, 2, 4)), fs(_dy(rng, -2, 2, 4)), fs(rng.choice([Fr(1, 2), Fr(1), Fr(2)]))]}
+            r = i % 3
+            if r != 1:
+                case["fp"] = sq.next(None)
+            if r != 0:
+                case["cp"] = sq.next(None)
+            yield case
+        for i in range(24 if not big else 200):
+            N = rng.choice([1, 2, 3])
+
+            def draw2():
+                return Fr(rng.randint(1, 63), 64)
+            r = i % 3
+            if i % 2 == 0:
+                case = {"kind": "relax_comb", "param": rng.choice(["probs", "logits"]), "N": N,
+                        "us": [fs(draw2()) for _ in range(N)], "vs": [fs(draw2()) for _ in range(N)],
+                        "f": _table(rng, 2),
+                        "cv": [fs(_dy(rng, -2, 2, 4)), fs(_dy(rng, -2, 2, 4)), fs(_dy(rng, 1, 3, 4))]}
+                case["value"] = fs(Fr(rng.randint(1, 15), 16) if case["param"] == "probs" else _dy(rng, -2, 2, 8))
+                coord = None
+            else:
+                V = rng.choice([2, 3])
+                gpar = rng.choice(["logits", "probs"])
+                case = {"kind": "relax_comb", "dist": "gumbel", "param": gpar,
+                        "theta": _logits(rng, V) if gpar == "logits" else _simplex(rng, V), "N": N,
+                        "coord": rng.randrange(V),
+                        "us": [[fs(draw2()) for _ in range(V)] for _ in range(N)],
+                        "vs": [[fs(draw2()) for _ in range(V)] for _ in range(N)], "f": _table(rng, V),
+                        "cvkind": "smooth",
+                        "cv": [fs(_dy(rng, -2, 2, 4)), fs(_dy(rng, -2, 2, 4)), fs(_dy(rng, 1, 3, 4))]}
+                coord = rng.randrange(V)
+            if r != 1:
+                case["fp"] = sq.next(coord, None if coord is None else len(case["theta"]))
+            if r != 0:
+                case["cp"] = sq.next(None if coord is None else rng.randrange(len(case["theta"])),
+                                     None if coord is None else len(case["theta"]))
+            yield case
         # malformed constructions: the documented ValueError
         for cls in ("LogisticBernoulli", "GumbelOneHotCategorical"):
             for how in ("neither", "both", "scalar"):
@@ -617,21 +756,110 @@ class C19(PropertyCheck):
             return [(f"{case['kind']}: implementation raised {impl['error']}: {impl.get('message')}", sig)]
         return getattr(self, "_pred_" + case["kind"])(case, impl, model)
 
+    # ---------------------------------------------------------------- callbacks as the user writes them
+    @staticmethod
+    def _batch(case):
+        """layout "batch": a Bernoulli family as a plain `Bernoulli(theta)` (batch shape (n,), no event
+        axis): n one-variable problems side by side, the estimators return a vector"""
+        return case.get("layout", "event") == "batch"
+
+    def _tables(self, case, sp, key):
+        """table of values of the callback `key` ("f": integrand, "c": control variate).  event layout: one
+        value per point of the family; batch layout: per element [value at 0, value at 1].  With a spelling
+        (`fp` / `cp`, see c19_alias) the table is what the spelling computes."""
+        fn = case.get(key + "p")
+        if fn is None:
+            t = case.get(key)
+            if t is not None and self._batch(case) and t and not isinstance(t[0], list):
+                t = [t]
+            return t
+        if self._batch(case):
+            return [[fs(alias.value(fn, 0)), fs(alias.value(fn, 1))] for _ in sp["theta"]]
+        return [fs(alias.value(fn, fam.coord_value(sp, i, fn["coord"]))) for i in range(fam.n_points(sp))]
+
+    def _callback(self, case, sp, key, twin=False, log=None):
+        fn = case.get(key + "p")
+        if fn is not None:
+            if twin:
+                fn = alias.twin(fn) or fn
+            return alias.make(fn, None if twin else log)
+        t = self._tables(case, sp, key)
+        if t is None:
+            return None
+        return fam.batch_table_func(t) if self._batch(case) else fam.table_func(sp, t)
+
+    @staticmethod
+    def _has_twin(case):
+        return any(alias.twin(case.get(k)) is not None for k in ("fp", "cp"))
+
+    @staticmethod
+    def _alias_obs(case, logs):
+        """per callback: did every call of a view spelling return storage shared with its argument?"""
+        return {k: (bool(logs[k]) and all(logs[k])) for k in logs if alias.is_view(case.get(k + "p"))}
+
+    def _pred_twin(self, name, case, a, b):
+        """value semantics of callbacks: the estimator's result must not depend on WHICH tensor carries
+        the callback's values"""
+        if b is None or a == b:
+            return []
+        sp = {k: case[k]["how"] for k in ("fp", "cp") if case.get(k)}
+        return [(f"{name}: the result changes when a callback that returns (a view of) its argument / a copy "
+                 f"modified in place is replaced by the same function returning a fresh tensor ({sp}): "
+                 f"{fam_short(a)} vs fresh {fam_short(b)}", None)]
+
     # ---------------------------------------------------------------- estimators: common
-    def _run_tuples(self, dist, params, pts, N, make_est):
-        """call the estimator once per tuple of Omega^N with proposal.sample replaced."""
+    def _run_tuples(self, dist, params, pts, N, make_est, vec=False):
+        """call the estimator once per tuple of Omega^N with proposal.sample replaced.  vec: the result is
+        a vector (batch layout): per tuple a list over its elements of [value, gradient]"""
         import torch
         out = []
         for t in fam.tuples(len(pts), N):
             b = torch.stack([pts[i] for i in t])
             with fam.patched(dist, sample=lambda shape=(), _b=b: _b.clone()):
                 v = make_est()()
-            gs = torch.autograd.grad(v, params, allow_unused=True, retain_graph=True)
-            flat = []
-            for g, p in zip(gs, params):
-                flat += [0.0] * p.numel() if g is None else g.reshape(-1).tolist()
-            out.append([fs(v.item()), [fs(x) for x in flat]])
+
+            def one(x):
+                gs = torch.autograd.grad(x, params, allow_unused=True, retain_graph=True)
+                flat = []
+                for g, p in zip(gs, params):
+                    flat += [0.0] * p.numel() if g is None else g.reshape(-1).tolist()
+                return [fs(x.item()), [fs(y) for y in flat]]
+            if vec:
+                if list(v.shape) != [pts[0].numel()]:
+                    raise ValueError(f"estimate of shape {list(v.shape)} for batch shape {[pts[0].numel()]}")
+                out.append([one(v[j]) for j in range(v.numel())])
+            else:
+                out.append(one(v))
         return out
+
+    def _cmp_batch(self, per, models, M, N, gtols):
+        """batch layout: element j of the estimate on a tuple of joint points is the one-variable model of
+        element j on the projected tuple; its gradient lives in parameter coordinate j only"""
+        out = []
+        for ti, t in enumerate(fam.tuples(M, N)):
+            for j, (val, grads) in enumerate(per[ti]):
+                m = models[j]["per_tuple"][fam.project(t, j)]
+                out += self._cmp_multi(f"tuple {ti} element {j}", [val, [grads[j]]], m, gtols[j])
+                if any(F(x) != 0 for k, x in enumerate(grads) if k != j):
+                    out.append(f"tuple {ti} element {j}: gradient outside parameter coordinate {j}: {grads}")
+        return out
+
+    def _pred_batch(self, name, per, P, N, exact):
+        """batch layout: mean over the joint sample space of element j = exact[j] (value, [gradient in
+        coordinate j]); zero elsewhere"""
+        fails = []
+        for j in range(len(per[0])):
+            v, g = self._wmean([row[j] for row in per], P, N)
+            ev, eg = F(exact[j][0]), F(exact[j][1][0])
+            if not close(v, ev):
+                fails.append((f"{name}: element {j}: mean value over the sample space {float(v)!r} != E f = "
+                              f"{float(ev)!r}", None))
+            for k, x in enumerate(g):
+                want = eg if k == j else Fr(0)
+                if not close(x, want):
+                    fails.append((f"{name}: element {j}: mean gradient[{k}] {float(x)!r} != exact {float(want)!r}",
+                                  None))
+        return fails
 
     @staticmethod
     def _wmean(per_tuple, P, N):
@@ -689,36 +917,71 @@ class C19(PropertyCheck):
         import torch
         from pydrobert.torch.estimators import DirectEstimator
         sp = case["dist"]
-        dist, param, pts = fam.build(sp)
-        func = fam.table_func(sp, case["f"])
-        cv = cv_mean = None
-        if case["c"] is not None:
-            cv = fam.table_func(sp, case["c"])
-            ct = torch.tensor([float(F(x)) for x in case["c"]], dtype=torch.float64)
+        batch = self._batch(case)
+        dist, param, pts = fam.build(sp, layout=case.get("layout", "event"))
+        ctab = self._tables(case, sp, "c")
+        cv_mean = None
+        if ctab is not None:
             # the differentiable exact mean of the control variate
-            cv_mean = (dist.log_prob(torch.stack(pts)).exp() * ct).sum()
+            if batch:
+                ct = torch.tensor([[float(F(x)) for x in r] for r in ctab], dtype=torch.float64)
+                cv_mean = ct[:, 0] * dist.log_prob(pts[0]).exp() + ct[:, 1] * dist.log_prob(pts[-1]).exp()
+            else:
+                ct = torch.tensor([float(F(x)) for x in ctab], dtype=torch.float64)
+                cv_mean = (dist.log_prob(torch.stack(pts)).exp() * ct).sum()
             if case["cv_mean_detached"]:
                 cv_mean = cv_mean.detach()
         # the sample space is the support: a class of probability zero (logit -inf) is never drawn
         spts = [pts[i] for i in fam.support(sp)]
-        per = self._run_tuples(dist, [param], spts, case["N"],
-                               lambda: DirectEstimator(dist, func, case["N"], cv, cv_mean))
+        logs = {"f": [], "c": []}
+
+        def run(twin):
+            func = self._callback(case, sp, "f", twin, logs["f"])
+            cv = self._callback(case, sp, "c", twin, logs["c"])
+            return self._run_tuples(dist, [param], spts, case["N"],
+                                    lambda: DirectEstimator(dist, func, case["N"], cv, cv_mean), vec=batch)
+        per = run(False)
         lps = dist.log_prob(torch.stack(pts)).detach()
-        return {"per_tuple": per, "lv": [fs(x) for x in lps.tolist()],
-                "psum": fs(lps.exp().sum().item())}
+        if batch:
+            psum = [fs(x) for x in (lps[0].exp() + lps[-1].exp()).tolist()]
+        else:
+            psum = fs(lps.exp().sum().item())
+        return {"per_tuple": per, "psum": psum, "aliased": self._alias_obs(case, logs),
+                "twin": run(True) if self._has_twin(case) else None}
+
+    def _elem_cases(self, case, key="dist"):
+        """batch layout: the one-variable event-layout case of every element"""
+        sp = case[key]
+        ft, ct = self._tables(case, sp, "f"), self._tables(case, sp, "c")
+        out = []
+        for j in range(len(sp["theta"])):
+            sub = {k: v for k, v in case.items() if k not in ("layout", "fp", "cp")}
+            sub[key] = fam.element(sp, j)
+            sub["f"] = ft[j]
+            if "c" in case:
+                sub["c"] = None if ct is None else ct[j]
+            out.append(sub)
+        return out
 
     def _req_direct(self, case):
         import torch
+        if self._batch(case):
+            return {"op": "c19.multi", "case": {"reqs": [self._req_direct(c) for c in self._elem_cases(case)]}}
         sp = case["dist"]
         dist, _, pts = fam.build(sp, False)
         lv = [fs(x) for x in dist.log_prob(torch.stack(pts)).tolist()]
-        points, _, _ = self._points_json(sp, case["f"], case["c"], lv, fam.support(sp))
+        points, _, _ = self._points_json(sp, self._tables(case, sp, "f"), self._tables(case, sp, "c"), lv,
+                                         fam.support(sp))
         return {"op": "c19.direct", "case": {
-            "N": case["N"], "K": fam.n_params(sp), "use_cv": case["c"] is not None,
+            "N": case["N"], "K": fam.n_params(sp), "use_cv": self._tables(case, sp, "c") is not None,
             "cv_mean_detached": bool(case["cv_mean_detached"]), "points": points}}
 
     def _cmp_direct(self, case, impl, model):
         out = []
+        if self._batch(case):
+            subs = self._elem_cases(case)
+            return self._cmp_batch(impl["per_tuple"], model["replies"], fam.n_points(case["dist"]), case["N"],
+                                   [self._gtol(c["dist"]) for c in subs])[:6]
         gtol = self._gtol(case["dist"])
         for i, (a, b) in enumerate(zip(impl["per_tuple"], model["per_tuple"])):
             out += self._cmp_multi(f"tuple {i}", a, b, gtol)
@@ -729,12 +992,23 @@ class C19(PropertyCheck):
     def _pred_direct(self, case, impl, model):
         P, _ = fam.exact_probs(case["dist"])
         P = [P[i] for i in fam.support(case["dist"])]
-        fails = []
-        if not close(impl["psum"], 1):
-            fails.append((f"probabilities over the support sum to {float(F(impl['psum']))}", None))
+        fails = self._pred_twin("DirectEstimator", case, impl["per_tuple"], impl["twin"])
+        has_cv = self._tables(case, case["dist"], "c") is not None
+        for x in (impl["psum"] if isinstance(impl["psum"], list) else [impl["psum"]]):
+            if not close(x, 1):
+                fails.append((f"probabilities over the support sum to {float(F(x))}", None))
+        if self._batch(case):
+            exact = []
+            for m in model["replies"]:
+                ev, eg = m["exact"][0], list(m["exact"][1])
+                if has_cv and case["cv_mean_detached"]:
+                    eg = [fs(F(a) - F(b)) for a, b in zip(eg, m["exact_cv"][1])]
+                exact.append([ev, eg])
+            return fails + self._pred_batch("DirectEstimator (batch of independent variables)", impl["per_tuple"],
+                                            P, case["N"], exact)
         v, g = self._wmean(impl["per_tuple"], P, case["N"])
         ev, eg = F(model["exact"][0]), [F(x) for x in model["exact"][1]]
-        if case["c"] is not None and case["cv_mean_detached"]:
+        if has_cv and case["cv_mean_detached"]:
             # companion statement: a detached cv_mean gives grad E f - grad E c
             eg = [a - F(b) for a, b in zip(eg, model["exact_cv"][1])]
         if not close(v, ev):
@@ -750,26 +1024,44 @@ class C19(PropertyCheck):
         import torch
         from pydrobert.torch.estimators import ImportanceSamplingEstimator
         sp = case["proposal"]
-        dist, qparam, pts = fam.build(sp)
+        batch = self._batch(case)
+        lay = case.get("layout", "event")
+        dist, qparam, pts = fam.build(sp, layout=lay)
         if case["density"] == "same":
             dens, pparam = dist, qparam
             params = [qparam]
         else:
-            dens, pparam, _ = fam.build(case["density"])
+            dens, pparam, _ = fam.build(case["density"], layout=lay)
             params = [pparam, qparam]
-        func = fam.table_func(sp, case["f"])
         pts = [pts[i] for i in fam.support(sp)]        # the proposal's support
-        per = self._run_tuples(dist, params, pts, case["N"],
-                               lambda: ImportanceSamplingEstimator(dist, func, case["N"], dens))
-        return {"per_tuple": per}
+        logs = {"f": []}
+
+        def run(twin):
+            func = self._callback(case, sp, "f", twin, logs["f"])
+            return self._run_tuples(dist, params, pts, case["N"],
+                                    lambda: ImportanceSamplingEstimator(dist, func, case["N"], dens), vec=batch)
+        per = run(False)
+        return {"per_tuple": per, "aliased": self._alias_obs(case, logs),
+                "twin": run(True) if self._has_twin(case) else None}
+
+    def _is_elem_cases(self, case):
+        sp = case["proposal"]
+        ft = self._tables(case, sp, "f")
+        return [dict({k: v for k, v in case.items() if k not in ("layout", "fp")},
+                     proposal=fam.element(sp, j), f=ft[j],
+                     density="same" if case["density"] == "same" else fam.element(case["density"], j))
+                for j in range(len(sp["theta"]))]
 
     def _req_is(self, case):
+        if self._batch(case):
+            return {"op": "c19.multi", "case": {"reqs": [self._req_is(c) for c in self._is_elem_cases(case)]}}
         sp = case["proposal"]
         Q, dQ = fam.exact_probs(sp)
         sd = sp if case["density"] == "same" else case["density"]
         P, dP = fam.exact_probs(sd)
+        ft = self._tables(case, sp, "f")
         pts = [{"q": fs(Q[i]), "dq": fs(dQ[i][0]), "p": fs(P[i]), "dp": [fs(x) for x in dP[i]],
-                "f": case["f"][i]} for i in fam.support(sp)]
+                "f": ft[i]} for i in fam.support(sp)]
         return {"op": "c19.is", "case": {"N": case["N"], "K": fam.n_params(sd), "points": pts}}
 
     def _split_is(self, case, per):
@@ -779,12 +1071,26 @@ class C19(PropertyCheck):
         extra = [g[K:] for v, g in per]
         return a, extra
 
+    def _is_batch_split(self, case, per):
+        """batch layout -> per[t][j] = [val, density grads], and all proposal-only grads"""
+        n = len(case["proposal"]["theta"])
+        a = [[[v, g[:n]] for v, g in row] for row in per]
+        extra = [g[n:] for row in per for v, g in row]
+        return a, extra
+
     def _cmp_is(self, case, impl, model):
-        a, extra = self._split_is(case, impl["per_tuple"])
         out = []
-        gtol = self._gtol(case["proposal"] if case["density"] == "same" else case["density"])
-        for i, (x, y) in enumerate(zip(a, model["per_tuple"])):
-            out += self._cmp_multi(f"tuple {i}", x, y, gtol)
+        if self._batch(case):
+            a, extra = self._is_batch_split(case, impl["per_tuple"])
+            subs = self._is_elem_cases(case)
+            out = self._cmp_batch(a, model["replies"], fam.n_points(case["proposal"]), case["N"],
+                                  [self._gtol(c["proposal"] if c["density"] == "same" else c["density"])
+                                   for c in subs])
+        else:
+            a, extra = self._split_is(case, impl["per_tuple"])
+            gtol = self._gtol(case["proposal"] if case["density"] == "same" else case["density"])
+            for i, (x, y) in enumerate(zip(a, model["per_tuple"])):
+                out += self._cmp_multi(f"tuple {i}", x, y, gtol)
         for i, e in enumerate(extra):
             if any(F(x) != 0 for x in e):
                 out.append(f"tuple {i}: non-zero gradient w.r.t. the proposal parameters {e}")
@@ -793,14 +1099,21 @@ class C19(PropertyCheck):
     def _pred_is(self, case, impl, model):
         Q, _ = fam.exact_probs(case["proposal"])
         Q = [Q[i] for i in fam.support(case["proposal"])]
+        fails = self._pred_twin("ImportanceSamplingEstimator", case, impl["per_tuple"], impl["twin"])
+        if self._batch(case):
+            a, extra = self._is_batch_split(case, impl["per_tuple"])
+            fails += self._pred_batch("ImportanceSamplingEstimator (batch of independent variables)", a, Q,
+                                      case["N"], [m["exact"] for m in model["replies"]])
+            if any(F(x) != 0 for e in extra for x in e):
+                fails.append(("ImportanceSamplingEstimator: gradient flows into the proposal parameters", None))
+            return fails
         a, extra = self._split_is(case, impl["per_tuple"])
         v, g = self._wmean(a, Q, case["N"])
-        fails = []
         ev, eg = F(model["exact"][0]), [F(x) for x in model["exact"][1]]
         # the oracle over the WHOLE space of the density (the proposal dominates it by construction)
         sd = case["proposal"] if case["density"] == "same" else case["density"]
         Pd, _ = fam.exact_probs(sd)
-        ev_all = sum(p * F(x) for p, x in zip(Pd, case["f"]))
+        ev_all = sum(p * F(x) for p, x in zip(Pd, self._tables(case, case["proposal"], "f")))
         if ev_all != ev:
             fails.append((f"ImportanceSamplingEstimator: oracle over the proposal's support {float(ev)!r} != E_P f "
                           f"over the whole space {float(ev_all)!r} (proposal does not dominate)", None))
@@ -819,35 +1132,85 @@ class C19(PropertyCheck):
         import torch
         from pydrobert.torch.estimators import EnumerateEstimator
         sp = case["dist"]
-        dist, param, pts = fam.build(sp)
-        func = fam.table_func(sp, case["f"])
+        logs = {"f": []}
         if sp["fam"] == "bern":
-            # torch's Independent cannot enumerate: one plain Bernoulli (batch shape (1,))
-            dist = dist.base_dist
-            t = torch.tensor([float(F(x)) for x in case["f"]], dtype=torch.float64)
-            func = lambda b: t[b.long()]
-        v = EnumerateEstimator(dist, func)().sum()
-        g, = torch.autograd.grad(v, [param])
+            # torch's Independent cannot enumerate: a plain Bernoulli (batch shape (n,)) whose support is
+            # enumerated for all elements in parallel; the estimate is the vector of E f_j
+            bc = dict(case, layout="batch")
+            dist, param, pts = fam.build(sp, layout="batch")
+
+            def run(twin):
+                v = EnumerateEstimator(dist, self._callback(bc, sp, "f", twin, logs["f"]))()
+                if list(v.shape) != [len(sp["theta"])]:
+                    raise ValueError(f"estimate of shape {list(v.shape)} for batch shape {[len(sp['theta'])]}")
+                out = []
+                for j in range(v.numel()):
+                    g, = torch.autograd.grad(v[j], [param], retain_graph=True)
+                    out.append([fs(v[j].item()), [fs(x) for x in g.reshape(-1).tolist()]])
+                return out
+            sup = dist.enumerate_support()
+            return {"v": run(False), "twin": run(True) if self._has_twin(case) else None,
+                    "support_cols": [sorted(int(x) for x in col) for col in sup.t().tolist()],
+                    "psum": [fs(x) for x in dist.log_prob(sup).exp().sum(0).tolist()],
+                    "aliased": self._alias_obs(case, logs)}
+
+        dist, param, pts = fam.build(sp)
+
+        def run(twin):
+            v = EnumerateEstimator(dist, self._callback(case, sp, "f", twin, logs["f"]))().sum()
+            g, = torch.autograd.grad(v, [param], retain_graph=True)
+            return [fs(v.item()), [fs(x) for x in g.reshape(-1).tolist()]]
         sup = dist.enumerate_support()
         idx = fam.index_fn(sp)(sup).tolist()
-        return {"v": [fs(v.item()), [fs(x) for x in g.reshape(-1).tolist()]], "support_idx": sorted(idx),
-                "psum": fs(dist.log_prob(sup).exp().sum().item())}
+        return {"v": run(False), "twin": run(True) if self._has_twin(case) else None, "support_idx": sorted(idx),
+                "psum": fs(dist.log_prob(sup).exp().sum().item()), "aliased": self._alias_obs(case, logs)}
 
     def _req_enumerate(self, case):
-        points, _, _ = self._points_json(case["dist"], case["f"])
-        return {"op": "c19.enumerate", "case": {"K": fam.n_params(case["dist"]), "points": points}}
+        sp = case["dist"]
+        if sp["fam"] == "bern":
+            ft = self._tables(dict(case, layout="batch"), sp, "f")
+            if len(sp["theta"]) == 1 and len(ft) == 2 and not isinstance(ft[0], list):
+                ft = [ft]
+            reqs = []
+            for j in range(len(sp["theta"])):
+                el = fam.element(sp, j)
+                points, _, _ = self._points_json(el, ft[j])
+                reqs.append({"op": "c19.enumerate", "case": {"K": 1, "points": points}})
+            return {"op": "c19.multi", "case": {"reqs": reqs}}
+        points, _, _ = self._points_json(sp, self._tables(case, sp, "f"))
+        return {"op": "c19.enumerate", "case": {"K": fam.n_params(sp), "points": points}}
+
+    def _enum_rows(self, case, impl, model, key):
+        """-> list of (tag, impl [val, grads], model [val, grads]) with the model's gradient placed in the
+        element's own parameter coordinate"""
+        if case["dist"]["fam"] != "bern":
+            return [("enumerate", impl["v"], model[key])]
+        n = len(case["dist"]["theta"])
+        rows = []
+        for j, m in enumerate(model["replies"]):
+            g = ["0"] * n
+            g[j] = m[key][1][0]
+            rows.append((f"enumerate element {j}", impl["v"][j], [m[key][0], g]))
+        return rows
 
     def _cmp_enumerate(self, case, impl, model):
-        return self._cmp_multi("enumerate", impl["v"], model["model"])
+        return [d for tag, a, b in self._enum_rows(case, impl, model, "model") for d in self._cmp_multi(tag, a, b)]
 
     def _pred_enumerate(self, case, impl, model):
-        fails = [(m, None) for m in self._cmp_multi("EnumerateEstimator vs exact expectation", impl["v"],
-                                                    model["exact"])]
-        M = fam.n_points(case["dist"])
-        if impl["support_idx"] != list(range(M)):
-            fails.append((f"enumerate_support does not list every point once: {impl['support_idx']}", None))
-        if not close(impl["psum"], 1):
-            fails.append((f"probabilities over the enumerated support sum to {float(F(impl['psum']))}", None))
+        fails = self._pred_twin("EnumerateEstimator", case, impl["v"], impl["twin"])
+        fails += [(m, None) for tag, a, b in self._enum_rows(case, impl, model, "exact")
+                  for m in self._cmp_multi(f"EnumerateEstimator vs exact expectation ({tag})", a, b)]
+        if case["dist"]["fam"] == "bern":
+            if any(c != [0, 1] for c in impl["support_cols"]):
+                fails.append((f"enumerate_support does not list both values of every variable once: "
+                              f"{impl['support_cols']}", None))
+        else:
+            M = fam.n_points(case["dist"])
+            if impl["support_idx"] != list(range(M)):
+                fails.append((f"enumerate_support does not list every point once: {impl['support_idx']}", None))
+        for x in (impl["psum"] if isinstance(impl["psum"], list) else [impl["psum"]]):
+            if not close(x, 1):
+                fails.append((f"probabilities over the enumerated support sum to {float(F(x))}", None))
         return fails
 
     # enumerate over the SRSWOR distribution (no parameters: value only)
@@ -906,39 +1269,83 @@ class C19(PropertyCheck):
     def _impl_imh(self, case):
         import torch
         from pydrobert.torch.estimators import IndependentMetropolisHastingsEstimator as IMH
-        dist, dens, pts, _ = self._imh_setup(case)
-        func = fam.table_func(case["proposal"], case["f"])
-        draws = list(case["draws"])
-        us = torch.tensor([float(F(x)) for x in case["us"]], dtype=torch.float64)
-        taken = []
+        sp = case["proposal"]
+        lay = case.get("layout", "event")
+        batch = self._batch(case)
+        dist, _, pts = fam.build(sp, False, layout=lay)
+        dens = dist if case["density"] == "same" else fam.build(case["density"], False, layout=lay)[0]
+        us = torch.tensor([[float(F(x)) for x in r] for r in case["us"]] if batch
+                          else [float(F(x)) for x in case["us"]], dtype=torch.float64)
+        logs = {"f": []}
 
-        def sample(shape=()):
-            i = draws.pop(0)
-            taken.append(i)
-            return pts[i].unsqueeze(0).clone()
+        def run(twin):
+            func = self._callback(case, sp, "f", twin, logs["f"])
+            draws = list(case["draws"])
+            taken, asked = [], []
 
-        def rand(*a, **k):
-            return us.clone()
-        init = None if case["init"] is None else pts[case["init"]].clone()
-        with fam.patched(dist, sample=sample), fam.torch_patched(rand=rand):
-            est = IMH(dist, func, case["N"], dens, case["burn_in"], init, 3)
-            v = est()
-        return {"v": fs(v.item()), "consumed": len(taken), "requires_grad": bool(v.requires_grad)}
+            def sample(shape=()):
+                i = draws.pop(0)
+                taken.append(i)
+                return pts[i].unsqueeze(0).clone()
 
-    def _lus(self, case):
+            def rand(*a, **k):
+                asked.append([int(x) for x in (a[0] if len(a) == 1 and not isinstance(a[0], int) else a)])
+                return us.clone()
+            init = keep = None
+            if case["init"] is not None:
+                init = pts[case["init"]].clone()
+                if case.get("init_lead"):       # the documented second form: (1,) + batch + event shape
+                    init = init.unsqueeze(0).clone()
+                keep = init.clone()
+            with fam.patched(dist, sample=sample), fam.torch_patched(rand=rand):
+                est = IMH(dist, func, case["N"], dens, case["burn_in"], init, 3)
+                v = est()
+            want = [len(sp["theta"])] if batch else []
+            if list(v.shape) != want:
+                raise ValueError(f"estimate of shape {list(v.shape)}, expected {want}")
+            return {"v": [fs(x) for x in v.tolist()] if batch else fs(v.item()), "consumed": len(taken),
+                    "requires_grad": bool(v.requires_grad), "rand_shapes": asked,
+                    "init_untouched": True if init is None else bool(torch.equal(init, keep))}
+        out = run(False)
+        out["aliased"] = self._alias_obs(case, logs)
+        out["twin"] = run(True) if self._has_twin(case) else None
+        return out
+
+    @staticmethod
+    def _lus_of(us):
         out = []
-        for x in case["us"]:
+        for x in us:
             u = float(F(x))
             out.append(None if u == 0 else fs(math.log(u)))
         return out
 
+    def _lus(self, case):
+        return self._lus_of(case["us"])
+
+    def _imh_elem_cases(self, case):
+        """batch layout: the chain of element j (its bit of the start and of every proposal, its own
+        uniform draws, its own integrand)"""
+        sp = case["proposal"]
+        ft = self._tables(case, sp, "f")
+        out = []
+        for j in range(len(sp["theta"])):
+            out.append(dict({k: v for k, v in case.items() if k not in ("layout", "fp")},
+                            proposal=fam.element(sp, j), f=ft[j],
+                            density="same" if case["density"] == "same" else fam.element(case["density"], j),
+                            init=None if case["init"] is None else (case["init"] >> j) & 1,
+                            draws=[(i >> j) & 1 for i in case["draws"]], us=[r[j] for r in case["us"]]))
+        return out
+
     def _req_imh(self, case):
+        if self._batch(case):
+            return {"op": "c19.multi", "case": {"reqs": [self._req_imh(c) for c in self._imh_elem_cases(case)]}}
         _, _, pts, ratios = self._imh_setup(case)
         # a point outside the support (class with logit -inf: log P - log Q = -inf - -inf) is never
         # proposed; its ratio is a placeholder
         fin = [r == r and abs(r) != float("inf") for r in ratios]
         return {"op": "c19.imh", "case": {
-            "ratios": [fs(r) if ok else "0" for r, ok in zip(ratios, fin)], "f": case["f"], "in_support": fin,
+            "ratios": [fs(r) if ok else "0" for r, ok in zip(ratios, fin)],
+            "f": self._tables(case, case["proposal"], "f"), "in_support": fin,
             "N": case["N"], "burn_in": case["burn_in"], "tries": 3, "init": case["init"],
             "draws": case["draws"], "lus": self._lus(case)}}
 
@@ -946,6 +1353,8 @@ class C19(PropertyCheck):
         """every accept decision is clear of the tolerance (else: tie, skip equality)"""
         if case["density"] == "same":
             return True
+        if self._batch(case):
+            return all(self._imh_margin_ok(c) for c in self._imh_elem_cases(case))
         _, _, _, ratios = self._imh_setup(case)
         lus = self._lus(case)
         for a in ratios:
@@ -958,23 +1367,46 @@ class C19(PropertyCheck):
     def _cmp_imh(self, case, impl, model):
         if not self._imh_margin_ok(case):
             return []
-        if model["v"] is None:
-            return ["model: error"]
-        return [] if close(impl["v"], model["v"]) else [f"imh impl={float(F(impl['v']))} model={float(F(model['v']))}"]
+        vs = impl["v"] if self._batch(case) else [impl["v"]]
+        ms = model["replies"] if self._batch(case) else [model]
+        out = []
+        for j, (v, m) in enumerate(zip(vs, ms)):
+            if m["v"] is None:
+                out.append("model: error")
+            elif not close(v, m["v"]):
+                out.append(f"imh element {j}: impl={float(F(v))} model={float(F(m['v']))}")
+        return out
 
     def _pred_imh(self, case, impl, model):
         fails = []
+        tw = impl["twin"]
+        fails += self._pred_twin("IndependentMetropolisHastingsEstimator", case, impl["v"], tw and tw["v"])
         if impl["requires_grad"]:
             fails.append(("IMH estimate carries a gradient", None))
+        if not impl["init_untouched"]:
+            fails.append(("IMH wrote into the initial_sample tensor it was handed", None))
+        batch = self._batch(case)
+        want_shape = [case["N"]] + ([len(case["proposal"]["theta"])] if batch else [])
+        if impl["rand_shapes"] != [want_shape]:
+            fails.append((f"IMH asked torch.rand for shapes {impl['rand_shapes']}, expected one draw of "
+                          f"(mc_samples,) + batch_shape = {want_shape}", None))
         if case["density"] == "same":
-            # every proposal accepted -> plain post-burn-in average of the proposals
+            # every proposal accepted -> plain post-burn-in average of the proposals: the mean of the VALUES
+            # f(b_t) of the kept chain states
             off = 1 if case["init"] is None else 0
             chain = case["draws"][off: off + case["N"]]
             kept = chain[case["burn_in"]:]
-            ex = sum(F(case["f"][i]) for i in kept) / len(kept)
-            if not close(impl["v"], ex):
-                fails.append((f"IMH with proposal = density: {float(F(impl['v']))} is not the plain post-burn-in "
-                              f"average {float(ex)}", None))
+            ft = self._tables(case, case["proposal"], "f")
+            if batch:
+                exs = [sum(F(ft[j][(i >> j) & 1]) for i in kept) / len(kept) for j in range(len(ft))]
+                vs = impl["v"]
+            else:
+                exs, vs = [sum(F(ft[i]) for i in kept) / len(kept)], [impl["v"]]
+            for j, (v, ex) in enumerate(zip(vs, exs)):
+                if not close(v, ex):
+                    el = f" (element {j})" if batch else ""
+                    fails.append((f"IMH with proposal = density{el}: {float(F(v))} is not the plain post-burn-in "
+                                  f"average {float(ex)} of f over the kept proposals {kept}", None))
             if impl["consumed"] != off + case["N"]:
                 fails.append((f"IMH consumed {impl['consumed']} proposal draws, expected {off + case['N']}", None))
         return fails
@@ -1931,9 +2363,15 @@ class C19(PropertyCheck):
         t = torch.tensor([float(F(x)) for x in case["f"]], dtype=torch.float64)
         w = torch.tensor([1.0, 2.0][:n], dtype=torch.float64)
         func = lambda b: t[(b.detach() * w).sum(-1).round().long()].unsqueeze(-1).expand(b.shape)
-        with fam.torch_patched(rand=lambda *a, **k: U.clone()):
-            v = StraightThroughEstimator(d, func, U.shape[0])()
-        return {"v": [fs(x) for x in v.tolist()]}
+        logs = {"f": []}
+
+        def run(twin):
+            f = func if case.get("fp") is None else self._callback(case, None, "f", twin, logs["f"])
+            with fam.torch_patched(rand=lambda *a, **k: U.clone()):
+                v = StraightThroughEstimator(d, f, U.shape[0])()
+            return [fs(x) for x in v.tolist()]
+        return {"v": run(False), "twin": run(True) if self._has_twin(case) else None,
+                "aliased": self._alias_obs(case, logs)}
 
     def _st_exact(self, case):
         ks = case["ks"]
@@ -1954,9 +2392,14 @@ class C19(PropertyCheck):
         return []
 
     def _pred_st_value(self, case, impl, model):
-        ex = self._st_exact(case)
-        return [(f"StraightThroughEstimator: grid mean {x} != E f = {float(ex)}", None)
-                for x in impl["v"] if not close(x, ex)]
+        fails = self._pred_twin("StraightThroughEstimator", case, impl["v"], impl.get("twin"))
+        if case.get("fp") is not None:
+            # an elementwise integrand x -> a x + c written as the spelling says: entry j estimates a p_j + c
+            exs = [alias.value(case["fp"], Fr(k, 16)) for k in case["ks"]]
+        else:
+            exs = [self._st_exact(case)] * len(impl["v"])
+        return fails + [(f"StraightThroughEstimator: grid mean {x} != E f = {float(ex)}", None)
+                        for x, ex in zip(impl["v"], exs) if not close(x, ex)]
 
     @staticmethod
     def _rv_norm(case):
@@ -1996,18 +2439,30 @@ class C19(PropertyCheck):
         Vv = torch.tensor(vs, dtype=torch.float64).reshape(full)
         f0 = torch.tensor([float(F(x[0])) for x in fs_], dtype=torch.float64).reshape(shape)
         f1 = torch.tensor([float(F(x[1])) for x in fs_], dtype=torch.float64).reshape(shape)
-        func = lambda b: f0 + (f1 - f0) * b            # affine: also accepts relaxed values (REBAR)
         wv = (torch.arange(1, n + 1, dtype=torch.float64) / n).reshape(shape)
-        if case.get("cvkind") == "rebar":
-            from pydrobert.torch.modules import LogisticBernoulliRebarControlVariate
-            a, _, tau = [float(F(x)) for x in case["cv"]]
-            cv = LogisticBernoulliRebarControlVariate(func, tau, a)
-        else:
-            base = self._cvfun(case["cv"])
-            cv = lambda z: base(z) * wv
-        with fam.torch_patched(rand=lambda *a, **kk: U.clone(), rand_like=lambda *a, **kk: Vv.clone()):
-            v = RelaxEstimator(d, func, U.shape[0], cv)()
-        return {"v": [fs(x) for x in v.reshape(-1).tolist()], "shape": list(v.shape), "samples": U.shape[0]}
+        logs = {"f": [], "c": []}
+
+        def run(twin):
+            # affine integrand: also accepts relaxed values (REBAR); or the spelling `fp` (elementwise
+            # x -> a x + c returning its argument / a view / a modified copy / a fresh tensor)
+            func = lambda b: f0 + (f1 - f0) * b
+            if case.get("fp") is not None:
+                func = self._callback(case, None, "f", twin, logs["f"])
+            if case.get("cp") is not None:      # control variate of the relaxed sample, same spellings
+                cv = self._callback(case, None, "c", twin, logs["c"])
+            elif case.get("cvkind") == "rebar":
+                from pydrobert.torch.modules import LogisticBernoulliRebarControlVariate
+                a, _, tau = [float(F(x)) for x in case["cv"]]
+                cv = LogisticBernoulliRebarControlVariate(func, tau, a)
+            else:
+                base = self._cvfun(case["cv"])
+                cv = lambda z: base(z) * wv
+            with fam.torch_patched(rand=lambda *a, **kk: U.clone(), rand_like=lambda *a, **kk: Vv.clone()):
+                v = RelaxEstimator(d, func, U.shape[0], cv)()
+            return [[fs(x) for x in v.reshape(-1).tolist()], list(v.shape)]
+        (v, shp), tw = run(False), (run(True) if self._has_twin(case) else None)
+        return {"v": v, "shape": shp, "samples": U.shape[0], "twin": tw and tw[0],
+                "aliased": self._alias_obs(case, logs)}
 
     def _req_relax_value(self, case):
         return None
@@ -2017,7 +2472,9 @@ class C19(PropertyCheck):
 
     def _pred_relax_value(self, case, impl, model):
         par, shape, ks, fs_ = self._rv_norm(case)
-        fails = []
+        fails = self._pred_twin("RelaxEstimator", case, impl["v"], impl.get("twin"))
+        if case.get("fp") is not None:
+            fs_ = [[fs(alias.value(case["fp"], 0)), fs(alias.value(case["fp"], 1))] for _ in ks]
         if impl["shape"] != list(shape):
             fails.append((f"RelaxEstimator over LogisticBernoulli({par}= tensor of shape {shape}) returns shape "
                           f"{impl['shape']}", None))
@@ -2031,10 +2488,20 @@ class C19(PropertyCheck):
                               f"(u, v) grid {float(F(v)) if v not in SPECIALS else v} != E f = {float(ex)}", None))
         return fails
 
-    def _relax_pieces(self, case):
+    def _rc_ftable(self, case):
+        """table of the integrand of a relax_comb case: per class (categorical) / at 0 and 1 (Bernoulli)"""
+        fn = case.get("fp")
+        if fn is None:
+            return [F(x) for x in case["f"]]
+        if case.get("dist") == "gumbel":
+            return [alias.value(fn, 1 if k == fn["coord"] else 0) for k in range(len(case["theta"]))]
+        return [alias.value(fn, 0), alias.value(fn, 1)]
+
+    def _relax_pieces(self, case, twin=False, logs=None):
         """the per-sample quantities RelaxEstimator combines, each with d/dparameter, obtained from the
         distribution's own methods under the same draws."""
         import torch
+        logs = logs if logs is not None else {"f": [], "c": []}
         from pydrobert.torch.distributions import LogisticBernoulli, GumbelOneHotCategorical
         N = case["N"]
         par = case.get("param", "logits")
@@ -2052,6 +2519,10 @@ class C19(PropertyCheck):
             if case.get("cvkind") == "rebar":       # the library's own control variate: eta f(softmax(z / temp))
                 from pydrobert.torch.modules import GumbelOneHotCategoricalRebarControlVariate
                 cv = GumbelOneHotCategoricalRebarControlVariate(lambda x: (x * t).sum(-1), tau, a)
+            if case.get("fp") is not None:
+                func = self._callback(case, None, "f", twin, logs["f"])
+            if case.get("cp") is not None:
+                cv = self._callback(case, None, "c", twin, logs["c"])
             return th, d, U, Vv, func, cv
         lg = torch.tensor([float(F(case["value"] if "value" in case else case["logit"]))],
                           dtype=torch.float64, requires_grad=True)
@@ -2061,21 +2532,32 @@ class C19(PropertyCheck):
         t = torch.tensor([float(F(x)) for x in case["f"]], dtype=torch.float64)
         func = lambda b: t[b.detach().round().long()]
         cv = self._cvfun(case["cv"])
+        if case.get("fp") is not None:
+            func = self._callback(case, None, "f", twin, logs["f"])
+        if case.get("cp") is not None:
+            cv = self._callback(case, None, "c", twin, logs["c"])
         return lg, d, U, Vv, func, cv
 
     def _impl_relax_comb(self, case):
         import torch
         from pydrobert.torch.estimators import RelaxEstimator, StraightThroughEstimator
-        lg, d, U, Vv, func, cv = self._relax_pieces(case)
-        with fam.torch_patched(rand=lambda *a, **kk: U.clone(), rand_like=lambda *a, **kk: Vv.clone()):
-            v = RelaxEstimator(d, func, case["N"], cv)()
-            g, = torch.autograd.grad(v.sum(), [lg])
-            g = g.reshape(-1)[case.get("coord", 0)]
-            v2 = StraightThroughEstimator(d, func, case["N"])()
-            z = d.rsample([case["N"]])
-            zc = d.csample(d.threshold(z))
-        return {"relax": [fs(v.sum().item()), fs(g.item())], "st": fs(v2.sum().item()),
-                "z": [fs(x) for x in z.reshape(-1).tolist()], "zc": [fs(x) for x in zc.reshape(-1).tolist()]}
+        logs = {"f": [], "c": []}
+
+        def run(twin):
+            lg, d, U, Vv, func, cv = self._relax_pieces(case, twin, logs)
+            with fam.torch_patched(rand=lambda *a, **kk: U.clone(), rand_like=lambda *a, **kk: Vv.clone()):
+                v = RelaxEstimator(d, func, case["N"], cv)()
+                g, = torch.autograd.grad(v.sum(), [lg], allow_unused=True)
+                g = torch.zeros(()) if g is None else g.reshape(-1)[case.get("coord", 0)]
+                v2 = StraightThroughEstimator(d, func, case["N"])()
+                z = d.rsample([case["N"]])
+                zc = d.csample(d.threshold(z))
+            return {"relax": [fs(v.sum().item()), fs(g.item())], "st": fs(v2.sum().item()),
+                    "z": [fs(x) for x in z.reshape(-1).tolist()], "zc": [fs(x) for x in zc.reshape(-1).tolist()]}
+        out = run(False)
+        out["twin"] = run(True) if self._has_twin(case) else None
+        out["aliased"] = self._alias_obs(case, logs)
+        return out
 
     def _relax_samples(self, case):
         import torch
@@ -2109,7 +2591,7 @@ class C19(PropertyCheck):
         if case.get("dist") != "gumbel" or case.get("param") != "logits":
             return False
         zero = [fam.is_ninf(x) for x in case["theta"]]
-        return any(zero) and (impl["st"] == "nan" or close(impl["st"], F(case["f"][zero.index(True)])))
+        return any(zero) and (impl["st"] == "nan" or close(impl["st"], self._rc_ftable(case)[zero.index(True)]))
 
     def _cmp_relax_comb(self, case, impl, model):
         out = []
@@ -2121,7 +2603,9 @@ class C19(PropertyCheck):
         return out
 
     def _pred_relax_comb(self, case, impl, model):
-        fails = []
+        tw = impl.get("twin")
+        fails = self._pred_twin("RelaxEstimator / StraightThroughEstimator", case,
+                                [impl["relax"], impl["st"]], tw and [tw["relax"], tw["st"]])
         head = (f"{'GumbelOneHotCategorical' if case.get('dist') == 'gumbel' else 'LogisticBernoulli'}"
                 f"({case.get('param', 'logits')}={case.get('theta', case.get('value', case.get('logit')))})")
         # (a class whose logit is -inf has the relaxed value -inf; every other coordinate is real)
@@ -2136,7 +2620,7 @@ class C19(PropertyCheck):
             fails.append((f"{head}: RelaxEstimator (value, gradient) = {impl['relax']}: not finite", None))
         # StraightThroughEstimator returns the sample mean of f(H(z)) (C19_st_value), computed here from
         # the relaxed samples; a sample whose threshold is decided by less than 1e-9 is skipped
-        ft = [F(x) for x in case["f"]]
+        ft = self._rc_ftable(case)
         if z_ok:
             V = len(zero) if case.get("dist") == "gumbel" else 1
             zs = [[fam.fl(x) for x in impl["z"][i: i + V]] for i in range(0, len(impl["z"]), V)]
@@ -2208,13 +2692,17 @@ class C19(PropertyCheck):
         k = case["kind"]
         t = ["kind=" + k]
         if k == "direct":
+            has_cv = case.get("c") is not None or case.get("cp") is not None
             t += [f"direct:{case['dist']['fam']}/{case['dist']['param']}/N={case['N']}/"
-                  f"{'cv' if case['c'] is not None else 'nocv'}{'-detached' if case['cv_mean_detached'] else ''}"]
+                  f"{'cv' if has_cv else 'nocv'}{'-detached' if case['cv_mean_detached'] else ''}"]
         elif k == "is":
             t += [f"is:{case['proposal']['fam']}/N={case['N']}/{'same' if case['density'] == 'same' else 'other'}"]
         elif k == "imh":
             t += [f"imh:{'same' if case['density'] == 'same' else 'other'}/"
-                  f"{'supplied' if case['init'] is not None else 'drawn'}"]
+                  f"{'supplied' if case['init'] is not None else 'drawn'}",
+                  f"imh:kept={min(case['N'] - case['burn_in'], 4)}{'+' if case['N'] - case['burn_in'] >= 4 else ''}"]
+            if case["init"] is not None and "init_lead" in case:
+                t += [f"imh:initial_sample shape={'(1,)+sample' if case['init_lead'] else 'sample'}"]
         elif k == "binom":
             t += ["binom:" + ("rec" if case["L"] > 20 else "fact")]
         elif k == "srswor":
@@ -2266,6 +2754,17 @@ class C19(PropertyCheck):
             x = F(case.get("value", case.get("logit", "0")))
             edge = (par == "probs" and min(x, 1 - x) < Fr(1, 1000)) or (par == "logits" and abs(x) >= 17)
             t += [f"relax_comb:{par}/{'boundary' if edge else 'interior'}"]
+        # how the callbacks are written, and whether a view spelling really shared storage with its argument
+        for key, nm in (("fp", "f"), ("cp", "cv")):
+            if case.get(key) is not None:
+                fn = case[key]
+                al = (impl.get("aliased") or {}).get(key[0]) if isinstance(impl, dict) else None
+                t += [f"callback:{k}/{nm}={fn['how']}", f"callback:{nm} spelling={fn['how']}"
+                      + ("" if al is None else "/shares-storage" if al else "/fresh")]
+        if k in ("direct", "is", "imh", "enumerate"):
+            if case.get("layout") == "batch":
+                t += [f"{k}:layout=batch/n={len(case['dist' if k in ('direct', 'enumerate') else 'proposal']['theta'])}"
+                      + ("" if case.get("fp") else "/tables")]
         if k in ("direct", "enumerate") and fam.has_ninf(case["dist"]):
             t += [f"{k}:logit=-inf"]
         if k in ("is", "imh") and fam.has_ninf(case["proposal"]):
@@ -2282,8 +2781,10 @@ class C19(PropertyCheck):
         k = case["kind"]
         if k in ("direct", "is") and case["N"] > 1:
             yield dict(case, N=1)
-        if k == "direct" and case["c"] is not None:
-            yield dict(case, c=None, cv_mean_detached=False)
+        if k == "direct" and (case.get("c") is not None or case.get("cp") is not None):
+            yield dict({kk: v for kk, v in case.items() if kk != "cp"}, c=None, cv_mean_detached=False)
+        if k == "imh" and case.get("init_lead"):
+            yield dict(case, init_lead=False)
         if k == "imh":
             if case["N"] > 1:
                 N = case["N"] - 1
